@@ -4,6 +4,9 @@
 
 #include "aln_param.h"
 #include "aln_struct.h"
+#ifdef KALIGN_VERIF
+#include "kalign_verif.h"
+#endif
 #define ALN_SEQPROFILE_IMPORT
 #include "aln_seqprofile.h"
 #define MAX(a, b) (a > b ? a : b)
@@ -11,6 +14,9 @@
 
 int aln_seqprofile_foward(struct aln_mem* m)
 {
+#ifdef KALIGN_VERIF
+        kv_dp(KV_FWD_BEGIN, m);
+#endif
         struct states* s = m->f;
         const float* prof1 = m->prof1;
         const uint8_t* seq2 = m->seq2;
@@ -112,11 +118,17 @@ int aln_seqprofile_foward(struct aln_mem* m)
                 }
         }
         //prof1 -= m->enda << 6;
+#ifdef KALIGN_VERIF
+        kv_dp(KV_FWD_END, m);
+#endif
         return OK;
 }
 
 int aln_seqprofile_backward(struct aln_mem* m)
 {
+#ifdef KALIGN_VERIF
+        kv_dp(KV_BWD_BEGIN, m);
+#endif
         struct states* s = m->b;
         const float* prof1 = m->prof1;
         const uint8_t* seq2 = m->seq2;
@@ -213,11 +225,17 @@ int aln_seqprofile_backward(struct aln_mem* m)
                         s[j].gb = MAX(s[j].gb,ca)+prof1[29];
                 }
         }
+#ifdef KALIGN_VERIF
+        kv_dp(KV_BWD_END, m);
+#endif
         return OK;
 }
 
 int aln_seqprofile_meetup(struct aln_mem* m,int old_cor[],int* meet,int* t,float* score)
 {
+#ifdef KALIGN_VERIF
+        kv_dp(KV_MEET_BEGIN, m);
+#endif
         struct states* f = m->f;
         struct states* b = m->b;
         const float* prof1 = m->prof1;
@@ -335,5 +353,8 @@ int aln_seqprofile_meetup(struct aln_mem* m,int old_cor[],int* meet,int* t,float
         *meet = c;
         *t = transition;
         *score = max;
+#ifdef KALIGN_VERIF
+        kv_dp(KV_MEET_END, m);
+#endif
         return OK;
 }
